@@ -357,7 +357,7 @@ def run(tier, seed):
     core.validate_and_report(chk, 'Objects', OBS, ACTIONS, batch, trace_cfg(), INVS, 'c10', {}, 'random', nproc=8,
                              extra={'ObjectsData.tla': data_module(True)})
     chk.sample({'recorded': [a for a, s in batch[0]][:4]})
-    tr = [list(x) for x in batch[0]]
+    tr = [list(x) for x in rerecord({}, [('Incoming', (call_space(True)[0],))])]
     for j, (a, st) in enumerate(tr):
         if any(st['replies']):
             reps = [list(x) for x in st['replies']]
